@@ -231,8 +231,8 @@ func (e *isoEnv) readers(tc *cache.TableCache, uuid string) map[string]func() mo
 			}
 			return p
 		},
-		"api.List":        func() model.Model { return list(api) },
-		"Where.List":      func() model.Model { return list(api.Where(probe())) },
+		"api.List":   func() model.Model { return list(api) },
+		"Where.List": func() model.Model { return list(api.Where(probe())) },
 		"WhereCache.List": func() model.Model {
 			fn := reflect.MakeFunc(reflect.FuncOf([]reflect.Type{e.typ}, []reflect.Type{reflect.TypeOf(true)}, false), func(args []reflect.Value) []reflect.Value {
 				return []reflect.Value{reflect.ValueOf(true)}
@@ -451,13 +451,13 @@ func runC13(r *ev.Run) {
 	}
 	conds := func(uuid string) map[string][]ovsdb.Condition {
 		return map[string][]ovsdb.Condition{
-			"none":          nil,
-			"_uuid==":       {ovsdb.NewCondition("_uuid", ovsdb.ConditionEqual, ovsdb.UUID{GoUUID: uuid})},
+			"none":           nil,
+			"_uuid==":        {ovsdb.NewCondition("_uuid", ovsdb.ConditionEqual, ovsdb.UUID{GoUUID: uuid})},
 			"_uuid includes": {ovsdb.NewCondition("_uuid", ovsdb.ConditionIncludes, ovsdb.UUID{GoUUID: uuid})},
 			"_uuid== and i>": {ovsdb.NewCondition("_uuid", ovsdb.ConditionEqual, ovsdb.UUID{GoUUID: uuid}), ovsdb.NewCondition("i", ovsdb.ConditionGreaterThan, 5)},
 			"i== (indexed)":  {ovsdb.NewCondition("i", ovsdb.ConditionEqual, 101)},
-			"i>":            {ovsdb.NewCondition("i", ovsdb.ConditionGreaterThan, 5)},
-			"b!=":           {ovsdb.NewCondition("s", ovsdb.ConditionNotEqual, "no such value")},
+			"i>":             {ovsdb.NewCondition("i", ovsdb.ConditionGreaterThan, 5)},
+			"b!=":            {ovsdb.NewCondition("s", ovsdb.ConditionNotEqual, "no such value")},
 		}
 	}
 	(&isoEnv{kind: "runtime-struct", dbm: te.dbm, table: "T", typ: te.dbs.Types["T"], rich: rich, conds: conds,
